@@ -235,6 +235,61 @@ impl Model for M {
     }
 }
 
+/// What a long-running consumer of the library and the keyring module does when it generates many keys in ONE process
+/// and thread (the CLI is one process per key): PrivateKey::generate, a fresh salt from secure_random, lock, serialize,
+/// append. After every step the text must still parse, contain every key generated so far, and no two entries may share a
+/// public key. (In-process seam; skipped when the adapter is unavailable.)
+fn in_process_sequence(rep: &Report) {
+    if !kra::AVAILABLE {
+        return;
+    }
+    let n = rep.tier.pick(24usize, 72);
+    let mut text = String::new();
+    let mut names: Vec<String> = vec![];
+    for i in 0..n {
+        rep.eval(1);
+        let step = guarded(|| -> Result<String, String> {
+            let sk = kestrel_crypto::PrivateKey::generate();
+            let skb: [u8; 32] = sk.as_bytes().try_into().map_err(|_| "private key is not 32 bytes".to_string())?;
+            let salt: [u8; 32] = kestrel_crypto::secure_random(32).try_into().map_err(|_| "secure_random(32) did not return 32 bytes".to_string())?;
+            // a cheap stand-in for the locked string keeps 70 scrypt calls out of the loop: lock only every 8th key for real
+            let locked = if i % 8 == 0 { kra::lock(&skb, b"pw", &salt) } else { r::b64(&[&r::SK_MAGIC[..], &salt[..], &[0u8; 48][..]].concat()) };
+            let pk = r::encode_pk(&r::x25519_base(&skb));
+            Ok(kra::serialize_key(&format!("key-{}", i), &pk, &locked))
+        });
+        let sec = match step {
+            Ok(Ok(s)) => s,
+            Ok(Err(e)) | Err(e) => {
+                rep.violation("in-process/generate-failed", json!({"kind":"in-process","i":i}), e);
+                return;
+            }
+        };
+        if !text.is_empty() {
+            text.push('\n');
+        }
+        text.push_str(&sec);
+        names.push(format!("key-{}", i));
+        match guarded(|| kra::parse(&text)) {
+            Ok(Ok(kr)) => {
+                if let Some(missing) = names.iter().find(|nm| kr.get_key(nm).is_none()) {
+                    rep.violation("in-process/key-lost", json!({"kind":"in-process","i":i}), format!("after {} keys generated in one thread, '{}' is not in the keyring", i + 1, missing));
+                    return;
+                }
+            }
+            Ok(Err(e)) => {
+                rep.violation("in-process/keyring-no-longer-parses", json!({"kind":"in-process","i":i}), format!("after {} keys generated and appended in one thread the keyring no longer parses: {}", i + 1, e));
+                return;
+            }
+            Err(m) => {
+                rep.violation("in-process/panic", json!({"kind":"in-process","i":i}), m);
+                return;
+            }
+        }
+    }
+    rep.nontrivial(b"in-process-sequence");
+    rep.extra("in_process_generate_sequence", json!(n));
+}
+
 pub fn run(rep: &'static Report) {
     rep.set_rule("E-GRAPH over histories: breadth-first search (stateright) over initial keyring states x all sequences of <=2 (quick) / <=3 (thorough) `kestrel key generate -o F --env-pass` commands with distinct names from a 7-name alphabet (non-ASCII, with a space, a suffix of another, typed with surrounding whitespace, two names containing '=' with a common prefix) and 2 passwords; each state's last command is executed by the real CLI on the memoised file of its parent history, and the state invariant (prefix preserved, parses for the real parser and for REF, every generated key present, unlocks under its own password to the private key of its PublicKey, pre-existing entries kept) is checked. distinct non-trivial = histories with at least one generation");
     rep.assume("CLI runs use the real CSPRNG, so bytes differ between runs; a violating history is executed twice and the verdict must not flip");
@@ -254,10 +309,15 @@ pub fn run(rep: &'static Report) {
     rep.add_distinct(states.saturating_sub(ctx.inits.len() as u64));
     rep.extra("histories", json!({"initial_states":ctx.inits.iter().map(|i| i.0).collect::<Vec<_>>(),"max_generations":ctx.max_gens,"names":NAMES,"passwords":PASSWORDS,"states":states}));
     rep.sample(json!({"init":"keyring-without-trailing-newline","history":["generate name='k1' password=''","generate name='Zo\u{eb}' password='p\u{e4}'"],"expect":"old bytes are a prefix; 4 entries; both new keys unlock under their own passwords"}));
+    in_process_sequence(rep);
     rep.set_exhaustive(true);
 }
 
 pub fn replay(rep: &'static Report, case: &Value) {
+    if case["kind"] == "in-process" {
+        in_process_sequence(rep);
+        return;
+    }
     let h = Hist { init: case["init"].as_u64().unwrap() as u8, gens: case["gens"].as_array().unwrap().iter().map(|g| (g[0].as_u64().unwrap() as u8, g[1].as_u64().unwrap() as u8)).collect() };
     let ctx = Ctx { rep, seed: rep.seed, max_gens: 9, inits: initial_states(rep.seed), memo: Mutex::new(HashMap::new()), executed: AtomicU64::new(0) };
     for n in 0..=h.gens.len() {
